@@ -1,6 +1,6 @@
 (* C01 property theorems.  Only statements closed by [exact]; each followed by Print Assumptions.
    All are about the definitions of C01/Model.v that C01/Harness.v evaluates against the implementation. *)
-From Miller Require Import Base.Bytes Base.Record C01.Model C01.ProofsUtil C01.ProofsTsv C01.ProofsDkvp C01.ProofsCsv C01.ProofsCsv2.
+From Miller Require Import Base.Bytes Base.Record C01.Model C01.ProofsUtil C01.ProofsTsv C01.ProofsDkvp C01.ProofsCsv C01.ProofsCsv2 C01.ModelJson C01.ProofsJson C01.ModelXtab C01.ProofsXtab.
 Open Scope char_scope.
 
 (* ---- TSV ---- *)
@@ -152,12 +152,40 @@ Theorem C01_csv_idempotent_partial :
 Proof. exact (fun qa crlf comma lazy dedupe ragged recs H => f_equal (fun x => obind x (write_csv false qa crlf comma)) (csv_roundtrip qa crlf comma lazy dedupe ragged recs H)). Qed.
 Print Assumptions C01_csv_idempotent_partial.
 
+(* ---- JSON ---- *)
+(* millerJSONEncodeString against an RFC-8259 string decoder written in Gallina (ModelJson.jstep: the two-character
+   escapes, \/ , \uXXXX with either hex case and UTF-8 re-encoding, unescaped control characters rejected):
+   the decoder recovers EVERY byte string from Miller's encoding *)
+Theorem C01_json_string_rfc8259 : forall s, ref_decode_string (json_string s) = Some s.
+Proof. exact json_string_decodes. Qed.
+Print Assumptions C01_json_string_rfc8259.
+
+(* the RFC-8259 reference reader recovers every string-valued record stream (unique member names per record) from the
+   JSON writer's output: --ojson multi-line and --no-jvstack, with and without the outer list, and JSON Lines.
+   _partial: non-string values (number re-rendering, nested maps) are not modelled, and the reference stands in for
+   Go's encoding/json, to which it is tied by the correspondence check on valid-UTF-8 text only *)
+Theorem C01_json_roundtrip_strings_partial :
+  forall ml wrap recs, forallb (fun r => nodupb (keys r)) recs = true ->
+  read_json_ref (write_json ml wrap recs) = Some recs.
+Proof. exact json_roundtrip. Qed.
+Print Assumptions C01_json_roundtrip_strings_partial.
+
+(* ---- XTAB ---- *)
+(* for EVERY display-width function w (lib.DisplayWidth is a parameter of the writer model), one-byte IPS = OPS = c:
+   non-empty records with unique keys, keys free of c and LF, values free of LF, not starting with c, not ending in CR *)
+Theorem C01_xtab_roundtrip :
+  forall w c dedupe recs, wf_xtab c recs = true -> read_xtab [c] dedupe (write_xtab w [c] false recs) = Some recs.
+Proof. exact xtab_roundtrip. Qed.
+Print Assumptions C01_xtab_roundtrip.
+
 (* non-vacuity: concrete non-trivial streams inside each domain *)
 Example C01_nonvacuous :
   wf_tsv [[(B "a\b", B "x	y\z"); (bs [98;9;13;10;255]%N, bs [195;169;10;13;255;192]%N); (B "", B "")]; [(B "a\b", B ""); (bs [98;9;13;10;255]%N, B "-"); (B "", B """q"",")]] = true
   /\ wf_tsv_pos [[(B "1", B ""); (B "2", bs [9;255]%N)]; [(B "1", B "\"); (B "2", B "")]] = true
   /\ wf_dkvp (B ";;") (B ":=") false [[(B "k 1", B "v=1,2"); (B "", bs [13;65]%N)]; []; [(B "x", B "")]] = true
   /\ wf_nidx (B " ") false [[(B "1", B "a,b"); (B "2", B "=")]; []] = true
+  /\ wf_xtab " " [[(B "", B "x  y"); (B "long-key", B ""); (B "k", bs [195;169;13;65]%N)]; [(B "z", B "1")]] = true
+  /\ forallb (fun r => nodupb (keys r)) [[(B "a""b", bs [1;31;10;92;255]%N); (B "", B "")]; []] = true
   /\ forallb (wf_nidx_ws_rec false) [[(B "1", B "a,b"); (B "2", B "="); (B "3", bs [195;169]%N)]; []] = true
 .
 Proof. vm_compute. repeat split; reflexivity. Qed.
